@@ -485,12 +485,8 @@ func runIncr(w *hx.Writer, r *hx.RNG, id string, es1, es2 []ent, qs1, qs2 []neti
 	guarded(w, id, 1, append(append([]ent{}, es1...), es2...), func() { runIncr1(w, r, id, es1, es2, qs1, qs2) })
 }
 
-func runGroup(w *hx.Writer, r *hx.RNG, id string, own []ent, sets [][]ent, qs []netip.Addr) {
-	all := append([]ent{}, own...)
-	for _, s := range sets {
-		all = append(all, s...)
-	}
-	guarded(w, id, 4, all, func() { runGroup1(w, r, id, own, sets, qs) })
+func runGroup(w *hx.Writer, r *hx.RNG, id string, top *setNode, qs []netip.Addr) {
+	guarded(w, id, 4, top.all(), func() { runGroup1(w, r, id, top, qs) })
 }
 
 func runBad(w *hx.Writer, r *hx.RNG, id string, path int, before, after []ent, bad string, qs []netip.Addr) {
@@ -537,32 +533,198 @@ func runIncr1(w *hx.Writer, r *hx.RNG, id string, es1, es2 []ent, qs1, qs2 []net
 	})
 }
 
-func runGroup1(w *hx.Writer, r *hx.RNG, id string, own []ent, sets [][]ent, qs []netip.Addr) {
-	plugins := map[string]any{}
-	var tags []string
-	var setsCoq []string
-	for i, s := range sets {
-		p, err := ip_set.NewIPSet(newBP(nil), &ip_set.Args{IPs: strs(s)})
-		if err != nil {
-			rejected(w, id, 4, s, err)
-			return
-		}
-		tag := fmt.Sprintf("set%d", i)
-		plugins[tag] = p
-		tags = append(tags, tag)
-		setsCoq = append(setsCoq, entsCoq(s))
+// setNode is one ip_set plugin instance: own entries (the first nIPs of them
+// in Args.IPs, the rest in a file) and the sets it references.
+type setNode struct {
+	own  []ent
+	nIPs int
+	refs []*setNode
+}
+
+func node(own []ent, refs ...*setNode) *setNode {
+	return &setNode{own: own, nIPs: len(own), refs: refs}
+}
+
+func (s *setNode) coq() string {
+	rs := make([]string, len(s.refs))
+	for i, c := range s.refs {
+		rs[i] = c.coq()
 	}
-	p, err := ip_set.NewIPSet(newBP(plugins), &ip_set.Args{IPs: strs(own), Sets: tags})
+	return hx.App("SetDef", entsCoq(s.own), hx.List(rs))
+}
+
+func (s *setNode) all() []ent {
+	out := append([]ent{}, s.own...)
+	for _, c := range s.refs {
+		out = append(out, c.all()...)
+	}
+	return out
+}
+
+// members lists the own entry lists of every set below (and including) s.
+func (s *setNode) members() [][]ent {
+	out := [][]ent{s.own}
+	for _, c := range s.refs {
+		out = append(out, c.members()...)
+	}
+	return out
+}
+
+func (s *setNode) depth() int {
+	d := 0
+	for _, c := range s.refs {
+		if k := c.depth(); k > d {
+			d = k
+		}
+	}
+	return d + 1
+}
+
+type rejection struct {
+	es  []ent
+	err error
+}
+
+// construct builds the referenced sets first and then the set itself through
+// the real plugin constructor, registering every instance under its own tag.
+func (s *setNode) construct(r *hx.RNG, id string, m *coremain.Mosdns, plugins map[string]any, tag string) (*ip_set.IPSet, *rejection) {
+	var tags []string
+	for i, c := range s.refs {
+		ct := fmt.Sprintf("%s_%d", tag, i)
+		p, rej := c.construct(r, id, m, plugins, ct)
+		if rej != nil {
+			return nil, rej
+		}
+		plugins[ct] = p
+		tags = append(tags, ct)
+	}
+	args := &ip_set.Args{IPs: strs(s.own[:s.nIPs]), Sets: tags}
+	if s.nIPs < len(s.own) {
+		txt, _ := textOf(r, strs(s.own[s.nIPs:]))
+		f := tempFile(id+tag, txt)
+		defer os.Remove(f)
+		args.Files = []string{f}
+	}
+	p, err := ip_set.NewIPSet(coremain.NewBP(tag, m), args)
 	if err != nil {
-		rejected(w, id, 4, own, err)
+		return nil, &rejection{s.own, err}
+	}
+	return p, nil
+}
+
+func runGroup1(w *hx.Writer, r *hx.RNG, id string, top *setNode, qs []netip.Addr) {
+	plugins := map[string]any{}
+	m := coremain.NewTestMosdnsWithPlugins(plugins)
+	p, rej := top.construct(r, id, m, plugins, "top")
+	if rej != nil {
+		rejected(w, id, 4, rej.es, rej.err)
 		return
 	}
 	ps := ask(p.GetIPMatcher(), qs)
-	w.Emit("group", hx.Case{
+	w.Emit(fmt.Sprintf("group:depth%d", top.depth()), hx.Case{
 		ID:   id,
-		Coq:  hx.App("CGroup", entsCoq(own), hx.List(setsCoq), probesCoq(ps)),
-		Desc: map[string]any{"own": strs(own), "sets": len(sets)},
+		Coq:  hx.App("CGroup", top.coq(), probesCoq(ps)),
+		Desc: map[string]any{"members": len(top.members()), "depth": top.depth(), "entries": strs(top.all())},
 	})
+}
+
+// distinctEnts makes entries in a region of the address space that belongs to
+// member number k alone, so that only that member covers them.
+func distinctEnts(r *hx.RNG, k, n int) []ent {
+	out := make([]ent, n)
+	for i := range out {
+		var b block
+		switch r.Intn(3) {
+		case 0: // IPv4 (20+k).x.0.0 and longer
+			p := netip.PrefixFrom(netip.AddrFrom4([4]byte{byte(20 + k), byte(r.Intn(4)), byte(r.Intn(256)), byte(r.Intn(256))}), r.Range(14, 32))
+			b = entBlock(ent{a: p.Addr(), bits: p.Bits()})
+		case 1: // IPv6 2001:db8:k::/48 and longer
+			a := netip.AddrFrom16([16]byte{0x20, 0x01, 0x0d, 0xb8, 0, byte(k), byte(r.Intn(2)), byte(r.Intn(256)), 0, 0, 0, 0, 0, 0, byte(r.Intn(256)), byte(r.Intn(256))})
+			b = entBlock(ent{a: a, bits: r.Range(50, 128)})
+		default: // IPv4-mapped ::ffff:(120+k).x.y.z
+			a := netip.AddrFrom16([16]byte{0, 0, 0, 0, 0, 0, 0, 0, 0, 0, 0xff, 0xff, byte(120 + k), byte(r.Intn(4)), byte(r.Intn(256)), byte(r.Intn(256))})
+			b = entBlock(ent{a: a, bits: r.Range(110, 128)})
+		}
+		out[i] = render(r, b)
+	}
+	return out
+}
+
+// genTree: a top set with 1..3 referenced sets, each of which may reference
+// up to 2 (thorough: 3) further sets; every member gets entries of its own
+// region, now and then also entries from the shared seeds (overlaps).
+func genTree(r *hx.RNG, maxOwn, maxRefs2 int) *setNode {
+	k := 0
+	mk := func(minOwn int) *setNode {
+		n := r.Range(minOwn, maxOwn)
+		own := distinctEnts(r, k, n)
+		k++
+		if r.Chance(1, 5) {
+			own = append(own, genEnts(r, 1)...)
+		}
+		s := &setNode{own: own, nIPs: len(own)}
+		if len(own) > 0 && r.Chance(1, 4) {
+			s.nIPs = r.Intn(len(own) + 1)
+		}
+		return s
+	}
+	top := mk(0)
+	for i, n := 0, r.Range(1, 3); i < n; i++ {
+		mid := mk(0)
+		for j, nj := 0, r.Range(0, maxRefs2); j < nj; j++ {
+			leaf := mk(1)
+			if r.Chance(1, 6) { // a third level
+				leaf.refs = append(leaf.refs, mk(1))
+			}
+			mid.refs = append(mid.refs, leaf)
+		}
+		top.refs = append(top.refs, mid)
+	}
+	return top
+}
+
+// groupQueries: for every member, first/last/inner address of some of its
+// entries and the neighbours just outside; then random ones.
+func groupQueries(r *hx.RNG, top *setNode, perMember, max int) []netip.Addr {
+	var qs []netip.Addr
+	add := func(v *big.Int) {
+		if v.Sign() >= 0 && v.Cmp(max128) <= 0 {
+			qs = append(qs, asQuery(r, v))
+		}
+	}
+	for _, mem := range top.members() {
+		if len(mem) == 0 {
+			continue
+		}
+		for i := 0; i < perMember; i++ {
+			b := entBlock(hx.Pick(r, mem))
+			switch r.Intn(5) {
+			case 0:
+				add(b.lo)
+			case 1:
+				add(b.hi())
+			case 2:
+				add(new(big.Int).Add(b.lo, new(big.Int).And(rand128(r), new(big.Int).Sub(b.size(), one))))
+			case 3:
+				add(b.lo)
+				add(new(big.Int).Sub(b.lo, one))
+			default:
+				add(b.hi())
+				add(new(big.Int).Add(b.hi(), one))
+			}
+		}
+	}
+	if len(qs) > max {
+		var keep []netip.Addr
+		for _, i := range r.Perm(len(qs))[:max] {
+			keep = append(keep, qs[i])
+		}
+		qs = keep
+	}
+	for len(qs) < max && r.Chance(1, 2) {
+		qs = append(qs, asQuery(r, rand128(r)))
+	}
+	return qs
 }
 
 var numRe = regexp.MustCompile(`#(\d+)`)
@@ -894,14 +1056,27 @@ func main() {
 		b := es("10.0.0.0/8")
 		runIncr(w, hx.NewRNG(o.Seed, id), id, nil, b, allBoundaries(b), allBoundaries(b))
 	}
-	if id := "cat:group"; o.Want(id) {
-		own, s0, s1 := es("10.0.0.0/8"), es("10.0.0.0/24", "11.0.0.0/8"), es("2001:db8::/32", "9.255.255.255")
-		all := append(append(append([]ent{}, own...), s0...), s1...)
-		runGroup(w, hx.NewRNG(o.Seed, id), id, own, [][]ent{s0, s1}, allBoundaries(all))
+	leaf := func() *setNode { return node(es("10.1.0.0/16", "2001:db8:1::/48")) }
+	groupCat := []struct {
+		name string
+		top  *setNode
+	}{
+		{"flat", node(es("10.0.0.0/8"), node(es("10.0.0.0/24", "11.0.0.0/8")), node(es("2001:db8::/32", "9.255.255.255")))},
+		{"empty-own", node(nil, node(es("10.0.0.0/24")), node(nil))},
+		// a referenced set with own entries AND a reference (two members)
+		{"own-and-ref", node(es("8.8.8.8"), node(es("192.168.0.0/24"), leaf()))},
+		// a referenced set without own entries that references two sets
+		{"two-refs", node(nil, node(nil, node(es("172.16.0.0/12")), leaf()))},
+		{"three-refs", node(es("::ffff:9.0.0.0/104"), node(nil, node(es("172.16.0.0/12")), node(es("fe80::/10")), leaf()), node(es("1.1.1.1")))},
+		{"three-levels", node(nil, node(es("192.168.0.0/24"), node(es("10.1.0.0/16"), node(es("2001:db8:1::/48"), node(es("::ffff:7.7.7.7"))))))},
+		{"nested-across-members", node(es("10.0.0.0/24"), node(es("10.0.1.0/24"), node(es("10.0.0.0/16")), node(es("10.1.0.0/16", "10.0.0.0/8"))))},
 	}
-	if id := "cat:group:empty-own"; o.Want(id) {
-		s0 := es("10.0.0.0/24")
-		runGroup(w, hx.NewRNG(o.Seed, id), id, nil, [][]ent{s0, nil}, allBoundaries(s0))
+	for _, c := range groupCat {
+		id := "cat:group:" + c.name
+		if !o.Want(id) {
+			continue
+		}
+		runGroup(w, hx.NewRNG(o.Seed, id), id, c.top, allBoundaries(c.top.all()))
 	}
 	for i, bad := range badItems {
 		for _, path := range []int{2, 3, 4} {
@@ -920,8 +1095,10 @@ func main() {
 	// ----- generated -----
 	n := o.Count(700, 20000)
 	maxEnts, maxQ := 10, 22
+	maxOwn, maxRefs2, perMember := 2, 2, 2
 	if !quick {
 		maxEnts, maxQ = 40, 60
+		maxOwn, maxRefs2, perMember = 4, 3, 4
 	}
 	for i := 0; i < n; i++ {
 		id := fmt.Sprintf("gen:%d", i)
@@ -934,24 +1111,16 @@ func main() {
 			ne = r.Range(1, 5)
 		}
 		switch k := r.Intn(20); {
-		case k < 13:
+		case k < 11:
 			l := genEnts(r, ne)
 			runList(w, r, id, r.Intn(6), l, genQueries(r, l, maxQ))
-		case k < 16:
+		case k < 14:
 			l := genEnts(r, ne)
 			c := r.Intn(len(l) + 1)
 			runIncr(w, r, id, l[:c], l[c:], genQueries(r, l[:c], maxQ/2), genQueries(r, l, maxQ/2))
 		case k < 18:
-			l := genEnts(r, ne)
-			c1 := r.Intn(len(l) + 1)
-			c2 := c1 + r.Intn(len(l)-c1+1)
-			sets := [][]ent{l[c1:c2]}
-			if r.Bool() {
-				sets = append(sets, l[c2:])
-			} else {
-				sets = [][]ent{l[c1:]}
-			}
-			runGroup(w, r, id, l[:c1], sets, genQueries(r, l, maxQ))
+			top := genTree(r, maxOwn, maxRefs2)
+			runGroup(w, r, id, top, groupQueries(r, top, perMember, maxQ))
 		default:
 			l := genEnts(r, r.Range(0, 4))
 			after := genEnts(r, r.Range(0, 2))
